@@ -17,7 +17,9 @@ def cfg : Cfg :=
     asDictCatch := Gen.C03.asDictCatch
     iterCatch := Gen.C03.iterCatch
     childrenCatch := Gen.C03.childrenCatch
+    childrenRecCatch := Gen.C03.childrenRecCatch
     parentCatch := Gen.C03.parentCatch
+    parentsCatch := Gen.C03.parentsCatch
     initClauses := Gen.C03.initClauses
     runningClauses := Gen.C03.runningClauses
     nameCatch := Gen.C03.nameCatch
